@@ -138,6 +138,28 @@ def isPrintBits : List Byte :=
   (List.range 32).map fun j =>
     BitVec.ofNat 8 ((List.range 8).foldl (fun acc k => if isPrint (BitVec.ofNat 8 (8 * j + k)) then acc + 2 ^ k else acc) 0)
 
+/-! ## round 3b: `path_compare_node` at index level
+
+Two memory blocks of exactly the two allocations, `a` / `b` indices into them.  The loop test
+`*a != 0 && *a != '/' && *b != 0 && *b != '/'` short-circuits: `*b` is read only when `*a` is an
+ordinary character; behind the loop `*a` is read again (same byte) and `*b` only on the branch
+that needs it.  Fuel = one iteration per byte of `a`'s block. -/
+def compareNodeP (ma mb : Str) : Nat → Nat → Nat → PR Int
+  | 0, _, _ => .fuel
+  | f + 1, a, b => do
+    let ca ← rd ma a
+    if ca != NUL && ca != SLASH then
+      let cb ← rd mb b
+      if cb != NUL && cb != SLASH then
+        if ca == cb then compareNodeP ma mb f (a + 1) (b + 1)
+        else pure (if ca.slt cb then -1 else 1)   -- return *a < *b ? -1 : 1;   (`char`: signed)
+      else pure 1                                  -- loop left by `*b`: `*a` is no end -> return 1
+    else
+      -- if (*a == 0 || *a == '/') { if (*b == 0 || *b == '/') return 0; return -1; }
+      let cb ← rd mb b
+      pure (if cb == NUL || cb == SLASH then 0 else -1)
+
+
 def constsLine : String :=
   "argcmax_m=" ++ toString SSHELL_ARGCMAX ++ " argcmax_r=" ++ toString SSHELL_ARGCMAX ++ " enoent=" ++ toString ENOENT
     ++ " ok=0 plen=" ++ toString UINT_BITS ++ " size_t=" ++ toString SIZE_BITS ++ " bufsize=" ++ toString SIZE_BITS
